@@ -1082,15 +1082,23 @@ class FortranFile:
         post_lines = []
         if forward:
             if self.fixed:
-                if line_ind < self.nLines:
+                while line_ind < self.nLines:
                     next_line = self.get_line(line_ind, pp_content)
-                    line_ind += 1
-                    cont_match = FRegex.FIXED_CONT.match(next_line)
-                    while (cont_match is not None) and (line_ind < self.nLines):
+                    if FRegex.FIXED_CONT.match(next_line):
                         post_lines.append(" " * 6 + next_line[6:])
-                        next_line = self.get_line(line_ind, pp_content)
-                        line_ind += 1
-                        cont_match = FRegex.FIXED_CONT.match(next_line)
+                    elif (
+                        FRegex.FIXED_COMMENT.match(next_line)
+                        or next_line.strip() == ""
+                    ):
+                        # Comment and blank lines may stand between a line and
+                        # its continuation: keep a placeholder and look further
+                        post_lines.append("")
+                    else:
+                        break
+                    line_ind += 1
+                # Comment lines after the last continuation line are not part of it
+                while post_lines and post_lines[-1] == "":
+                    post_lines.pop()
             else:
                 line_stripped = strip_strings(curr_line, maintain_len=True)
                 iAmper = line_stripped.find("&")
